@@ -105,7 +105,10 @@ class _CompRename(ast.NodeTransformer):
                 if isinstance(t, ast.Name) and t.id not in mapping:
                     mapping[t.id] = "c%d" % self.n
                     self.n += 1
+        first_iter = node.generators[0].iter          # evaluated in the enclosing scope: not renamed
+        node.generators[0].iter = ast.Constant(value=None)
         node = _Subst(mapping).visit(node)
+        node.generators[0].iter = first_iter
         self.generic_visit(node)
         return node
 
@@ -121,7 +124,11 @@ def norm(expr, inline, rename):
     e = _Subst(rename).visit(e)
     e = _CompRename().visit(e)
     ast.fix_missing_locations(e)
-    return src(e)
+    t = src(e)
+    # equivalent spellings of "the vertices 1..n of a graph"
+    t = t.replace(".number_of_vertices()", ".order()")
+    t = re.sub(r"range\(1, (\w+)\.order\(\) \+ 1\)", r"\1.vertices()", t)
+    return t
 
 
 class Extractor:
@@ -171,6 +178,8 @@ class Extractor:
                 cn = call_name(v) or ""
                 if cn in ("formula_class", "CNF", "OPB") and counts.get(name) == 1:
                     self.formula_names.add(name)
+                if any(k.arg == "formula_class" for k in v.keywords) and counts.get(name) == 1:
+                    self.formula_names.add(name)          # result of a nested family generator
         for name in self.formula_names:
             self.rename[name] = "F"
         for name, v in assigns.items():
@@ -261,10 +270,30 @@ class Extractor:
             else:
                 self._calls(s, quants, guards, local)
 
+    def _branch_summary(self, body, name, local):
+        """summary of a statement list that defines ``name`` (first an assignment, then only appends); None if not so"""
+        if not body or not (isinstance(body[0], ast.Assign) and len(body[0].targets) == 1 and src(body[0].targets[0]) == name):
+            return None
+        v = body[0].value
+        parts = [] if (isinstance(v, ast.List) and not v.elts) else [self._n(v, local)]
+        for b in body[1:]:
+            t = self._build_text(b, name, local)
+            if t is None:
+                return None
+            parts += t
+        return "; ".join(parts)
+
     def _built_lists(self, stmts, upto, local):
         """names initialised to [] in this block and only appended to before ``upto``: name -> summary text"""
         out = {}
         idx = stmts.index(upto)
+        for s in stmts[:idx]:
+            if isinstance(s, ast.If) and s.orelse:
+                names = {src(x.targets[0]) for x in s.body if isinstance(x, ast.Assign) and len(x.targets) == 1 and isinstance(x.targets[0], ast.Name)}
+                for name in names:
+                    a, b = self._branch_summary(s.body, name, local), self._branch_summary(s.orelse, name, local)
+                    if a is not None and b is not None:
+                        out[name] = "{if %s: %s else: %s}" % (self._n(s.test, local), a, b)
         for i, s in enumerate(stmts[:idx]):
             if isinstance(s, ast.Assign) and len(s.targets) == 1 and isinstance(s.targets[0], ast.Name) and \
                     isinstance(s.value, ast.List):
@@ -277,7 +306,7 @@ class Extractor:
                         ok = False
                         break
                     parts += t
-                if ok:
+                if ok and name not in out:
                     out[name] = "{" + "; ".join(parts) + "}"
         return out
 
